@@ -197,7 +197,7 @@ class G:
 
 
 def config(rng, stream):
-    c = []
+    c = ["lctrace=1", "serverstatecb=1"]
     c.append("seed=%d" % rng.randint(1, 10 ** 6))
     ns = rng.choice([1, 1, 1, 2, 3])
     c.append("servers=%d" % ns)
@@ -244,8 +244,6 @@ def config(rng, stream):
             c.append("pendingwritecb=1")
     if rng.random() < 0.15:
         c.append("sockstatecb=1")
-    if rng.random() < 0.1:
-        c.append("serverstatecb=1")
     return " ".join(c)
 
 
@@ -256,7 +254,7 @@ def history(rng, stream, maxops):
     allow = {
         "plain": set(),
         "reentrant": {"req", "cancel"},
-        "reentrant-ss": {"req", "cancel", "setservers"},
+        "reentrant-ss": {"req", "cancel", "setservers"} if NEST_SS else {"req", "cancel"},
         "destroy": {"req", "cancel"},
         "sockfail": {"req", "cancel"},
         "tcp": {"req", "cancel"},
@@ -320,7 +318,7 @@ def history(rng, stream, maxops):
 def crasher(rng):
     """variations around the four defects of the pinned tree"""
     k = rng.randint(0, 7)
-    cfg = "servers=%d tries=%d" % (rng.choice([1, 1, 2]), rng.choice([1, 2]))
+    cfg = "lctrace=1 serverstatecb=1 servers=%d tries=%d" % (rng.choice([1, 1, 2]), rng.choice([1, 2]))
     if k == 0:
         kind = rng.choice(["send", "query", "search", "gai", "ghbn", "oquery"])
         g = G(rng, 10)
@@ -338,11 +336,11 @@ def crasher(rng):
         return cfg + " domains=d.test ndots=%d|search 1 %s.%s.%s.\\097%s IN A rd;rspall rcode=3;run;rspall rcode=3;run" % (
             rng.choice([1, 5]), A63, A63, A63, "a" * rng.choice([53, 54, 55, 56]))
     if k == 5:
-        return "servers=1 tries=1|oncb 1 cancel;send 1 p.example IN A rd;send 3 r.example IN A rd;fail sendto 1 %s;send 2 q.example IN A rd" % rng.choice(["ECONNREFUSED", "EPIPE"])
+        return "lctrace=1 serverstatecb=1 servers=1 tries=1|oncb 1 cancel;send 1 p.example IN A rd;send 3 r.example IN A rd;fail sendto 1 %s;send 2 q.example IN A rd" % rng.choice(["ECONNREFUSED", "EPIPE"])
     if k == 6:
         dom = rng.choice(["a.test", "a.test,b.test"])
         kind = rng.choice(["search 1 host IN A rd", "gai 1 host 0 0x80", "ghbn 1 host 4"])
-        return "servers=%d domains=%s|%s;rspall rcode=NXDOMAIN;fail sendto %d ECONNREFUSED;%s;rspall an=A:1.1.1.1;run" % (
+        return "lctrace=1 serverstatecb=1 servers=%d domains=%s|%s;rspall rcode=NXDOMAIN;fail sendto %d ECONNREFUSED;%s;rspall an=A:1.1.1.1;run" % (
             rng.choice([1, 2]), dom, kind, rng.choice([1, 2]), rng.choice(["proc", "run"]))
     return cfg + "|send 0 h0.example IN A rd;oncb 0 cancel;send 1 h1.example IN A rd;rspall %s;run" % rng.choice(["rcode=3", "an=A:1.1.1.1", "rcode=2"])
 
